@@ -209,7 +209,10 @@ func gen(r *hv.Rng, i int, tier string) (string, hv.Val) {
 			add("Content-Length", fmt.Sprint(total+1+r.Intn(3)))
 			class += "-cllong"
 		case 9:
-			if total > 0 {
+			if r.Chance(1, 2) {
+				add("Content-Length", []string{"abc", "-1", "5x", "99999999999999999999"}[r.Intn(4)]) // invalid: must be dropped
+				class += "-clbad"
+			} else if total > 0 {
 				add("Content-Length", fmt.Sprint(r.Intn(total)))
 				class += "-clshort"
 			}
